@@ -400,6 +400,13 @@ include hb
 theorem SRel.doc? {s₁ s₂ : RState} (h : SRel R s₁ s₂) {r₁ r₂ : NodeId} (hr : R r₁ r₂) :
     OptRel (DRel R) (s₁.doc? r₁) (s₂.doc? r₂) := find_doc_rel hb hr h.docs
 
+theorem SRel.draftOf {s₁ s₂ : RState} (h : SRel R s₁ s₂) {r₁ r₂ : NodeId} (hr : R r₁ r₂) :
+    s₁.draftOf r₁ = s₂.draftOf r₂ := by
+  have := h.doc? hb hr
+  unfold RState.draftOf
+  cases h1 : s₁.doc? r₁ <;> cases h2 : s₂.doc? r₂ <;> rw [h1, h2] at this <;>
+    first | exact this.elim | rfl | exact this.draft
+
 omit hb in
 theorem DRel.contains {d₁ d₂ : DocRes} (h : DRel R d₁ d₂) {a b : NodeId} (hr : R a b) :
     d₁.known.contains a = d₂.known.contains b := by
